@@ -33,10 +33,16 @@ def enclose(f, d1, d2, sup_d3, lo, hi):
     xm = mp.mpf(m) / ONE
     s = mp.mpf(2) ** SC
     A = _ri(ONE * f(xm) * s)
-    Bc = _ri(d1(xm) * s)
-    Cc = _ri(d2(xm) / (2 * ONE) * s)
-    s3 = sup_d3(mp.mpf(lo) / ONE, mp.mpf(hi) / ONE)
-    rem = s3 / (mp.mpf(ONE) ** 2) * mp.mpf(H) ** 3 / 6 * s
+    if H == 0:
+        Bc = Cc = 0              # single point: only the value is used (derivatives may not exist there, e.g. asin at 1)
+    else:
+        Bc = _ri(d1(xm) * s)
+        Cc = _ri(d2(xm) / (2 * ONE) * s)
+    if H == 0:
+        rem = mp.mpf(0)          # a single point: no remainder (and the derivative bound may not exist there, e.g. asin at 1)
+    else:
+        s3 = sup_d3(mp.mpf(lo) / ONE, mp.mpf(hi) / ONE)
+        rem = s3 / (mp.mpf(ONE) ** 2) * mp.mpf(H) ** 3 / 6 * s
     # coefficient rounding 1/2 each (times 1, H, H^2); mpmath error far below 1 unit of 2^-SC: +2 units of margin
     E = int(mp.ceil(rem + mp.mpf(1 + H + H * H) / 2)) + 2
     return Enclosure(lo, hi, m, A, Bc, Cc, E)
